@@ -173,6 +173,22 @@ class Body:
         if k == "goto":
             return [t["target"]]
         if k == "switch":
+            # a switch on a literal constant (`if false && ..`, `if cfg!(..)`) has one live successor
+            c = t["discr"].get("const") if isinstance(t["discr"], dict) else None
+            if c is None:
+                # `_t = const false; switchInt(move _t)` within the block
+                dl = op_local(t["discr"])
+                pl = op_place(t["discr"])
+                if dl is not None and pl is not None and not pl["proj"]:
+                    for st in reversed(b["stmts"]):
+                        if st["k"] == "assign" and st["place"]["local"] == dl and not st["place"]["proj"]:
+                            if st["rv"]["k"] == "use" and "const" in st["rv"]["op"]:
+                                c = st["rv"]["op"]["const"]
+                            break
+            if c is not None and "scalar" in c and not c.get("def"):
+                v = c["scalar"]
+                hit = [bb for vv, bb in t["targets"] if vv == v]
+                return [hit[0]] if hit else [t["otherwise"]]
             out = []
             for _, bb in t["targets"]:
                 if bb not in out:
@@ -216,6 +232,20 @@ class Body:
             if s == b or b in self._reachable_from(s):
                 return True
         return False
+
+    def reachable_avoiding_edge(self, start, a, s):
+        """Blocks reachable from `start` without ever taking the CFG edge a -> s."""
+        seen = {start}
+        dq = deque([start])
+        while dq:
+            x = dq.popleft()
+            for y in self._succ[x]:
+                if x == a and y == s:
+                    continue
+                if y not in seen:
+                    seen.add(y)
+                    dq.append(y)
+        return seen
 
     def live_blocks(self):
         return self._reach
